@@ -406,6 +406,15 @@ def main(argv):
         out = index_probe(payload['cases'])
     elif kind == 'product':
         out = product_probe(payload['cases'])
+    elif kind == 'addblocks':
+        import c09_addblocks_run
+        out = c09_addblocks_run.run(payload)
+    elif kind == 'valued':
+        import c07_valued_run
+        out = c07_valued_run.run(payload)
+    elif kind == 'swapsign':
+        import c09_swapsign_run
+        out = c09_swapsign_run.run(payload)
     else:
         kinds = set()
 
